@@ -40,6 +40,9 @@ enum Case {
     /// A library-written wavelet matrix file whose level i keeps the supports in masks[i % len].
     WmPartial { values: Vec<u64>, masks: Vec<u8> },
     Skip { desc: Desc, chunk: usize },
+    /// The memory-mapped counterpart of skipping: a serialized bitvector with the supports in `mask` is walked
+    /// view by view (the optional parts as `MappedOption`s); offset + length of each view is the next offset.
+    MappedWalk { bits: BitsDesc, mask: u8 },
 }
 
 fn mask_after(mask: u8, a: Act) -> u8 {
@@ -367,6 +370,39 @@ fn absent(ctx: &mut Ctx) {
     ctx.expect(|| "absent_option".to_string(), got, &(true, 8 * serialize::absent_option_size(), None, true, 8), || json!("absent_option"));
 }
 
+fn mapped_walk(ctx: &mut Ctx, bits: &BitsDesc, mask: u8) {
+    use simple_sds::int_vector::IntVectorMapper;
+    use simple_sds::raw_vector::RawVectorMapper;
+    use simple_sds::serialize::{MappedOption, MappedSlice, MappingMode, MemoryMap, MemoryMapped};
+    let c = Case::MappedWalk { bits: bits.clone(), mask };
+    let case = || json!({"x": c, "call": "walk the mapped file view by view"});
+    ctx.announce(|| serde_json::to_value(&c).unwrap());
+    ctx.nontrivial(&c);
+    let bv = catalogue::bv_with_supports(bits, mask);
+    let bytes = to_bytes(&bv);
+    let path = ctx.scratch.join("c19-walk.bin");
+    std::fs::write(&path, &bytes).expect("scratch file");
+    let got = guard(|| {
+        let map = MemoryMap::new(&path, MappingMode::ReadOnly).map_err(|e| e.to_string())?;
+        // [number of set bits][raw vector][optional rank][optional select][optional select_zero]
+        let raw = RawVectorMapper::new(&map, 1).map_err(|e| e.to_string())?;
+        let mut at = raw.map_offset() + raw.map_len();
+        let rank = MappedOption::<MappedSlice<(u64, u64)>>::new(&map, at).map_err(|e| format!("rank support at {}: {}", at, e))?;
+        let mut present = rank.is_some() as u8;
+        at = rank.map_offset() + rank.map_len();
+        // The select supports are larger than the one integer vector the view type covers: the length of the
+        // optional is what its header says, not what the inner view happens to cover.
+        for k in 1..3u8 {
+            let sel = MappedOption::<IntVectorMapper>::new(&map, at).map_err(|e| format!("select support {} at {}: {}", k, at, e))?;
+            present |= (sel.is_some() as u8) << k;
+            at = sel.map_offset() + sel.map_len();
+        }
+        Ok::<(u8, usize, usize), String>((present, at, map.len()))
+    });
+    let _ = std::fs::remove_file(&path);
+    ctx.expect(|| "BitVector(mapped).walk[supports present, final offset, file length]".to_string(), got, &Ok((mask, bytes.len() / 8, bytes.len() / 8)), case);
+}
+
 fn explore(ctx: &mut Ctx) {
     vcore::model::self_check().expect("reference model self-check failed");
     let thorough = ctx.tier.is_thorough();
@@ -392,6 +428,16 @@ fn explore(ctx: &mut Ctx) {
             ctx.count("bitvectors", 1);
             ctx.sample_tagged("support-graph", || json!({"bits": bits}));
             graph(ctx, bits, None);
+        }
+    }
+    // The mapped counterpart of skipping optionals: every bitvector of <= 6 bits and the representatives x 8 subsets.
+    for bits in all.iter().filter(|b| match b { BitsDesc::Word { len, .. } => *len <= 6, _ => true }) {
+        for mask in 0..8u8 {
+            let c = Case::MappedWalk { bits: bits.clone(), mask };
+            if ctx.mine(&c) {
+                ctx.count("mapped_walks", 1);
+                mapped_walk(ctx, bits, mask);
+            }
         }
     }
     // Sparse vectors from support-free files at every admissible low width (small) and a few widths (large).
@@ -503,6 +549,7 @@ fn replay(ctx: &mut Ctx, v: &Value) {
         Case::SparsePartial { bits, mask } => sparse_partial(ctx, &bits, mask),
         Case::WmPartial { values, masks } => wm_partial(ctx, &values, &masks),
         Case::Skip { desc, chunk } => skip(ctx, &desc, chunk),
+        Case::MappedWalk { bits, mask } => mapped_walk(ctx, &bits, mask),
     }
 }
 
